@@ -915,3 +915,40 @@ RULES.setdefault("C17", []).append(Rule("C17.R6", "the staged file has a unique 
                                         "nothing but the named file changes, on whatever file system it lives"))
 RULES.setdefault("C16", []).append(Rule("C16.R11", "a path destination is written wherever it lives (shared with C17.R6)", 2, c17_r6, "F-PATH",
                                         "the path destination kind works like the stream kinds"))
+
+
+# ===================================================================================== C16.R12 bytes are decoded with the encoding they were produced in
+def c16_r12(ctx: Ctx, rule):
+    """A text destination gets `produce_bytes(...).decode(E)`.  That is the text the binary destination gets only if the producer was
+    asked for the same encoding E.  lxml's tostring()/ElementTree.write() default to ASCII: text content is then written as
+    character references (harmless), but element and attribute *names* cannot be referenced, so a non-ASCII attribute name yields
+    malformed XML on text destinations only."""
+    res = RuleResult()
+    n = 0
+    for q in serializer_write_closure(ctx):
+        fi = ctx.fn(q)
+        for c in calls_in(fi.node):
+            if call_name(c) != "decode" or not isinstance(c.func, ast.Attribute):
+                continue
+            prod = resolve_local(fi.node, c.func.value)
+            if not (isinstance(prod, ast.Call) and call_name(prod) in ("tostring", "tostringlist", "dump", "dumps", "serialize", "getvalue")):
+                continue
+            if call_name(prod) not in ("tostring", "tostringlist"):
+                continue
+            n += 1
+            dec = c.args[0].value if c.args and isinstance(c.args[0], ast.Constant) else next((k.value.value for k in c.keywords if k.arg == "encoding" and isinstance(k.value, ast.Constant)), "utf-8")
+            enc = next((k.value.value for k in prod.keywords if k.arg == "encoding" and isinstance(k.value, ast.Constant)), None)
+            same = enc is not None and str(enc).lower().replace("-", "") == str(dec).lower().replace("-", "")
+            res.ob("%s: %s produces bytes in %r, decoded as %r: same encoding: %s" % (short(q), norm(prod.func), enc or "ASCII (lxml default)", dec, same))
+            if not same:
+                res.fail(rule.id, "produced-and-decoded-differently::%s" % q, ctx.loc(q, c),
+                         "%s decodes as %r what %s produced in %s" % (short(q), dec, norm(prod.func), enc or "ASCII (the lxml default)"),
+                         "entity with attribute ex:größe written to a returned string or text stream: <ex:gr&#246;&#223;e> is not well-formed XML; the binary stream and path destinations are fine")
+    res.ob("bytes-then-decode sites on the serializers' write paths: %d" % n, nontrivial=False)
+    return res
+
+
+RULES.setdefault("C16", []).append(Rule("C16.R12", "a text destination receives bytes decoded with the encoding they were produced in", 1, c16_r12, "F-SIB",
+                                        "text and binary destinations hold the same document, non-ASCII names included"))
+RULES.setdefault("C02", []).append(Rule("C02.R12", "the XML text a string/text-stream destination receives is produced in the encoding it is decoded with (shared with C16.R12)", 1, c16_r12, "F-SIB",
+                                        "the PROV-XML round trip through a returned string holds for non-ASCII attribute names"))
